@@ -4,7 +4,7 @@ import itertools
 
 from sa.deps import Facts, base_name, names_in, pseudo
 from sa.loader import AnalysisError, ClassInfo, FuncInfo, own_nodes
-from sa.model import (Atomizer, IterSig, ResLoop, StepPhases, _const, classify_yield, descriptor_aliases,
+from sa.model import (Atomizer, alpha_text, IterSig, ResLoop, StepPhases, _const, classify_yield, descriptor_aliases,
                       find_resloops, flushed_lists, fq, is_drain_call, matcher_names, package_steps,
                       processor_classes, resloop_signature, u, where)
 from sa.paths import (BREAK, CONTINUE, FALL, RAISE, RETURN, Enumerator, calls_in, eval_order, item_nodes,
@@ -696,6 +696,7 @@ def r27_name_uniqueness(ctx, rule='R27'):
             f = c.methods.get(name)
             if f is None:
                 continue
+            f = ctx.N(f, keep=('process_datapackage', 'safe_process_datapackage'))   # a name-picking helper is part of the method
             adds = []
             for x in own_nodes(f.node):
                 if isinstance(x, ast.Call) and isinstance(x.func, ast.Attribute) and x.func.attr in ('append', 'extend') \
@@ -725,7 +726,7 @@ def r27_name_uniqueness(ctx, rule='R27'):
                     # only guards that talk about a name select the report key
                     gs = [('' if pol else 'not ') + u(t) for t, pol in p.guards()
                           if any(isinstance(z, ast.Name) and z.id == 'name' for z in ast.walk(t))]
-                    key = (' & '.join(gs) or '<always>') + ' -> ' + u(x)
+                    key = (' & '.join(gs) or '<always>') + ' -> ' + alpha_text(x, f.node)
                     if key in seen:
                         continue
                     seen.add(key)
@@ -783,6 +784,12 @@ def r27_name_uniqueness(ctx, rule='R27'):
                 e = emitted(nd)
                 if e is None:
                     continue
+                if seg == 'after-loop' and isinstance(e, ast.Name):
+                    # `for d in deferred: yield d` flushes descriptors that were judged when they were put on the list
+                    fl = [a for a in _ancestors(nd, f.node) if isinstance(a, ast.For) and isinstance(a.iter, ast.Name)
+                          and a.iter.id in flushed_lists(f, loop) and pseudo(a.target) == e.id]
+                    if fl:
+                        continue
                 if isinstance(nd, ast.Call):
                     lst = nd.func.value.id
                     main = isinstance(ds[4].value, ast.Name) and lst == ds[4].value.id
@@ -799,7 +806,7 @@ def r27_name_uniqueness(ctx, rule='R27'):
                 if not new:
                     continue
                 n_sites += 1
-                key = fmt_atoms({a: v for a, v in val.items() if a[0] in ('EQ', 'FLAG', 'MATCH')}) + ' -> ' + u(nd)
+                key = fmt_atoms({a: v for a, v in val.items() if a[0] in ('EQ', 'FLAG', 'MATCH')}) + ' -> ' + alpha_text(nd, f.node)
                 if key in seen:
                     continue
                 seen.add(key)
@@ -808,6 +815,13 @@ def r27_name_uniqueness(ctx, rule='R27'):
                           'the resources already present', path=p.describe())
     run.floor(rule, n_sites, 5, 'descriptor-adding sites')
     return n_sites
+
+
+def _ancestors(node, stop):
+    n = getattr(node, '_parent', None)
+    while n is not None and n is not stop:
+        yield n
+        n = getattr(n, '_parent', None)
 
 
 def _derived_from_loopvar(facts, name, var):
